@@ -11,7 +11,7 @@ pub fn run(prop: &'static str, replay: Option<String>) -> i32 {
         return replay_one(prop, &path, rep);
     }
     let thorough = rep.is_thorough();
-    let mut grammars = bfam::family(thorough);
+    let (mut grammars, family_names) = bfam::family(prop, thorough);
     if let Some(n) = std::env::var("VERIF_FAMILY_LIMIT").ok().and_then(|s| s.parse::<usize>().ok()) {
         grammars.truncate(n); // experiments only
     }
@@ -27,7 +27,7 @@ pub fn run(prop: &'static str, replay: Option<String>) -> i32 {
     cov["traces_validated_against_impl"] = cov["evaluations"].clone();
     cov["distinct_nontrivial"] = cov["nontrivial"].clone();
     cov["exhaustive"] = json!(true);
-    cov["bounds"] = json!({"family": if thorough {"EBNF(4,2,rules<=3) ∪ EBNF(5,1,rules<=2) + skip token"} else {"EBNF(3,2,rules<=3) ∪ EBNF(4,0,rules<=3) + skip token"},
+    cov["bounds"] = json!({"families": family_names,
         "len_full_alphabet": len_full, "len_tokens_only": len, "len_trivia_base": len_trivia, "script_deviations": dev});
     cov["rule"] = json!(rule_text(prop));
     cov["family_size_before_lelwel_verdict"] = json!(grammars.len());
